@@ -1265,6 +1265,94 @@ fn banded_mass_storage() -> Option<String> {
     None
 }
 
+/// C08: an event function that is exactly zero at a step start (e.g. at the initial point) is reported with the state of THAT point
+fn event_at_step_start_state() -> Option<String> {
+    struct Proj;
+    impl IVP for Proj {
+        fn ode(&self, _t: f64, y: &[f64], d: &mut [f64]) { d[0] = y[1]; d[1] = -9.81; }
+        fn n_events(&self) -> usize { 1 }
+        fn events(&self, _t: f64, y: &[f64], out: &mut [f64]) { out[0] = y[0]; }
+    }
+    for m in [Method::RK4, Method::RK23, Method::DOPRI5, Method::DOP853, Method::RADAU, Method::BDF] {
+        for &(x0, xe) in &[(0.0f64, 3.0f64), (0.0, -3.0)] {
+            let mut o = Options::builder().method(m.clone()).dense_output(true).build();
+            if m == Method::RK4 { o.first_step = Some(0.05 * (xe - x0).signum()); }
+            let s = match solve_ivp(&Proj, x0, xe, &[0.0, 10.0 * (xe - x0).signum()], o) { Ok(s) => s, Err(e) => return Some(format!("{:?}: {:?}", m, e)) };
+            for (k, te) in s.t_events[0].iter().enumerate() {
+                let ye = &s.y_events[0][k];
+                let want = match s.sol(*te) { Ok(v) => v, Err(_) => continue };
+                if (0..2).any(|c| (ye[c] - want[c]).abs() > 1e-8 * (1.0 + want[c].abs())) {
+                    return Some(format!("{:?}: projectile launched from the ground at t = {} toward {}: event {} at t = {:e} is stored with the state {:?}; the continuous solution there is {:?}", m, x0, xe, k, te, ye, want));
+                }
+            }
+        }
+    }
+    None
+}
+
+/// C12 / C19: Radau driven directly: whether an interpolant is requested (dense_output on or off) must not change the integration
+fn radau_dense_flag_invariance() -> Option<String> {
+    use ivp::methods::RADAU;
+    use ivp::solout::SolOut;
+    struct Vdp;
+    impl IVP for Vdp {
+        fn ode(&self, _t: f64, y: &[f64], d: &mut [f64]) { d[0] = y[1]; d[1] = ((1.0 - y[0] * y[0]) * y[1] - y[0]) / 1e-2; }
+        fn jac(&self, _t: f64, y: &[f64], j: &mut ivp::matrix::Matrix) { j[(0, 0)] = 0.0; j[(0, 1)] = 1.0; j[(1, 0)] = (-2.0 * y[0] * y[1] - 1.0) / 1e-2; j[(1, 1)] = (1.0 - y[0] * y[0]) / 1e-2; }
+    }
+    struct Rec { log: Vec<(f64, Vec<f64>)> }
+    impl SolOut for Rec { fn solout(&mut self, _xold: f64, x: &mut f64, y: &mut [f64], _i: Option<&StepInterpolant<'_>>) -> ControlFlag { self.log.push((*x, y.to_vec())); ControlFlag::Continue } }
+    for &(x0, xe) in &[(0.0f64, 2.0f64), (0.0, -0.5)] {
+        let run = |dense: bool| { let mut r = Rec { log: vec![] };
+            let res = RADAU::builder().dense_output(dense).build().solve(&Vdp, x0, &[2.0, 0.0], xe, 1e-6.into(), 1e-8.into(), Some(&mut r));
+            (res.map(|q| (q.evals.ode, q.evals.jac, q.evals.lu, q.steps.total, q.steps.accepted, q.steps.rejected)).ok(), r.log) };
+        let (a, la) = run(false); let (b, lb) = run(true);
+        if a != b || la != lb {
+            return Some(format!("RADAU::solve on van der Pol (eps = 1e-2) over [{}, {}]: (nfev, njev, nlu, nstep, naccpt, nrejct) = {:?} with dense_output(false), {:?} with dense_output(true); {} vs {} callbacks", x0, xe, a, b, la.len(), lb.len()));
+        }
+    }
+    None
+}
+
+/// C18: nfev equals the number of right-hand-side calls made by the stepper, also when callbacks return ModifiedSolution
+/// (with or without changing the state); analytic Jacobian, so no call is made while differencing
+fn modified_solution_counts() -> Option<String> {
+    use ivp::methods::{BDF, DOP853, DOPRI5, RADAU, RK23};
+    use ivp::solout::SolOut;
+    struct Lin { calls: Cell<usize> }
+    impl IVP for Lin {
+        fn ode(&self, _t: f64, y: &[f64], d: &mut [f64]) { self.calls.set(self.calls.get() + 1); d[0] = -y[0] + 0.5 * y[1]; d[1] = 0.25 * y[0] - 2.0 * y[1]; }
+        fn jac(&self, _t: f64, _y: &[f64], j: &mut ivp::matrix::Matrix) { j[(0, 0)] = -1.0; j[(0, 1)] = 0.5; j[(1, 0)] = 0.25; j[(1, 1)] = -2.0; }
+    }
+    struct Cb { n: usize, change_at: Vec<usize> }
+    impl SolOut for Cb {
+        fn solout(&mut self, _xold: f64, _x: &mut f64, y: &mut [f64], _i: Option<&StepInterpolant<'_>>) -> ControlFlag {
+            self.n += 1;
+            if self.change_at.contains(&self.n) { y[0] *= 1.5; }
+            ControlFlag::ModifiedSolution
+        }
+    }
+    for name in ["RK23", "DOPRI5", "DOP853", "RADAU", "BDF"] {
+        for change_at in [vec![], vec![4usize, 9]] {
+            let f = Lin { calls: Cell::new(0) };
+            let mut cb = Cb { n: 0, change_at: change_at.clone() };
+            let (rt, at0): (ivp::methods::Tolerance, ivp::methods::Tolerance) = (1e-6.into(), 1e-9.into());
+            let r = match name {
+                "RADAU" => RADAU::builder().build().solve(&f, 0.0, &[1.0, 1.0], 2.0, rt, at0, Some(&mut cb)),
+                "BDF" => BDF::builder().build().solve(&f, 0.0, &[1.0, 1.0], 2.0, rt, at0, Some(&mut cb)),
+                "DOPRI5" => DOPRI5::builder().build().solve(&f, 0.0, &[1.0, 1.0], 2.0, rt, at0, Some(&mut cb)),
+                "DOP853" => DOP853::builder().build().solve(&f, 0.0, &[1.0, 1.0], 2.0, rt, at0, Some(&mut cb)),
+                _ => RK23::builder().build().solve(&f, 0.0, &[1.0, 1.0], 2.0, rt, at0, Some(&mut cb)),
+            };
+            if let Ok(q) = r {
+                if q.evals.ode != f.calls.get() {
+                    return Some(format!("{}: every callback returns ModifiedSolution (state changed in callbacks {:?}): nfev = {}, the right-hand side was called {} times ({} callbacks)", name, change_at, q.evals.ode, f.calls.get(), cb.n));
+                }
+            }
+        }
+    }
+    None
+}
+
 fn main() {
     let which = std::env::args().nth(1).unwrap_or_default();
     let r = match which.as_str() {
@@ -1275,6 +1363,9 @@ fn main() {
         "default_mass" => default_mass(),
         "matrix_dense_model" => matrix_dense_model(),
         "lu_small" => lu_small(),
+        "event_at_step_start_state" => event_at_step_start_state(),
+        "radau_dense_flag_invariance" => radau_dense_flag_invariance(),
+        "modified_solution_counts" => modified_solution_counts(),
         "first_step_rejected_then_success" => first_step_rejected_then_success(),
         "teval_backward_endpoints" => teval_backward_endpoints(),
         "events_with_late_teval" => events_with_late_teval(),
